@@ -1459,7 +1459,7 @@ class sp_set_subscripts(Contract):
         # the shape before the call (the receiver is modified in place)
         old = Arr(A.fields["shape"].shape, N.snap(A.fields["shape"]).fn, "int", "tuple")
         ov = N.snap(A.fields["vals"])
-        return dict(__self__=A, key=K, value=V, __oldshape__=old, __oldvals__=(lambda k_: T.tz(ov.fn(k_, 0))))
+        return dict(__self__=A, key=K, value=V, __oldshape__=old, __oldvals__=(lambda k_: T.tz(ov.fn(k_, 0))), __oldrows__=A.fields["subs"].rowfn)
 
     def ensures(self, S, a, ret):
         A, K, V, old = a["__self__"], a["key"], a["value"], a["__oldshape__"]
@@ -1506,3 +1506,27 @@ class sp_set_subscripts(Contract):
                             z3.Or(T.Exists([j], z3.And(0 <= j, T.tz(j < p), rf2(t) == kf(j))),
                                   z3.And(find(rf2(t)) >= 0, v2(t) == oldvals(find(rf2(t)))))), [rf2(t)])
         yield "stored-subscripts-pairwise-distinct", T.ForAll([t, u], z3.Implies(z3.And(0 <= t, t < u, T.tz(u < n2)), rf2(t) != rf2(u)))
+        # ---- completeness, by explicit positions (witnesses read off the body's own locals)
+        env = getattr(S.it, "top_env", None) or {}
+        need = ("tf", "idxa", "idxb", "idxc")
+        if not ug or not all(isinstance(env.get(x), Arr) for x in need):
+            return
+        n_old = g["n"]
+        tf = N.snap(env["tf"])
+        TF = lambda u_: T.tz(tf.fn(u_))
+        keep = env.get("keepsubs")
+        if isinstance(keep, Arr) and "setdiff" in keep.ghost:
+            nk, _sdpos, sdslot = keep.ghost["setdiff"]
+            posold = lambda k_: sdslot(k_)
+        else:
+            nk, posold = n_old, (lambda k_: k_)
+        _, _, rk_c = N.select_ghost_of(S.ctx, env["idxc"])
+        tpos = lambda j_: z3.If(TF(uinv(j_)) >= 0, posold(TF(uinv(j_))), T.tz(nk) + rk_c(uinv(j_)))
+        k = z3.Int("ss!k")
+        rf_old = a["__oldrows__"]
+        yield "every-old-entry-that-is-not-assigned-zero-is-still-stored", T.ForAll(
+            [k], z3.Implies(z3.And(0 <= k, k < n_old, T.ForAll([j], z3.Implies(z3.And(0 <= j, T.tz(j < p), rf_old(k) == kf(j)), T.tz(V.fn(j, 0)) != 0))),
+                            z3.And(0 <= posold(k), T.tz(posold(k) < n2), rf2(posold(k)) == rf_old(k))), [rf_old(k)])
+        yield "every-assigned-non-zero-value-is-stored", T.ForAll(
+            [j], z3.Implies(z3.And(0 <= j, T.tz(j < p), T.tz(V.fn(j, 0)) != 0),
+                            z3.And(0 <= tpos(j), T.tz(tpos(j) < n2), rf2(tpos(j)) == kf(j), v2(tpos(j)) == T.tz(V.fn(j, 0)))), [kf(j)])
